@@ -134,6 +134,7 @@ package aml
 //@   ensures one: res == parseResultOk && byteAt(p, old(p.r.offset)) != 0x5b ==> op == uint16(byteAt(p, old(p.r.offset))) && p.r.offset == old(p.r.offset) + 1
 //@   ensures two: res == parseResultOk && byteAt(p, old(p.r.offset)) == 0x5b ==> op == 0xff + uint16(byteAt(p, old(p.r.offset) + 1)) && p.r.offset == old(p.r.offset) + 2
 //@   ensures known: res == parseResultOk ==> old(p.r.offset) < p.r.pkgEnd
+//@   ensures real: res == parseResultOk ==> ite(op <= 0xff, opcodeMap[op], extendedOpcodeMap[op-0xff]) != badOpcode
 
 //@ func (p *Parser) peekNextOpcode() (op uint16, res parseResult)
 //@   property C11 C12
